@@ -79,6 +79,19 @@ class Heartbeat(core.Scenario):
             self.app += [core.Action('ws_connect', connect, None, e1 - 0.125),
                          core.Action('probe', probe, lambda sc: sc.ws is not None and sc.ws.accepted, e1 - 0.125),
                          core.Action('upgrade', upgrade, lambda sc: '3probe' in peer.ws_frames(sc.ws), e1 + 0.125)]
+        if p.get('stall'):
+            # the client starts an upgrade (probe answered) and stalls for ever before UPGRADE; it stops polling meanwhile
+            t0 = self.iv + (0.125 if p['stall'] == 'after_ping' else -0.125)
+
+            def connect2(sc):
+                sc.stopped = True
+                sc.ws2 = peer.ws_upgrade(sc.world, sc.sid, run=False)
+
+            def probe2(sc):
+                sc.world.ws_send(sc.ws2, '2probe')
+            self.ws2 = None
+            self.app += [core.Action('ws_connect', connect2, None, t0),
+                         core.Action('probe', probe2, lambda sc: sc.ws2 is not None and sc.ws2.accepted, t0)]
         if p.get('send_at') is not None:
             t = p['send_at']
             self.app.append(core.Action('send', lambda sc: setattr(sc, 'send_call', (sc.world.now, sc.world.call('send', sc.sid, 'app-msg'))),
@@ -166,7 +179,9 @@ class Heartbeat(core.Scenario):
         upto = (late_idx[0] + 1) if late_idx else len(expect)
         if self.send_call is not None and self.send_call[0] > iv + to:
             pass
-        if seen[:upto] != expect[:min(upto, len(seen))] or (punctual and len(seen) < len(expect) and not
+        if p.get('stall') == 'before_ping':
+            pass        # the stalled client is not reading when the PING is emitted
+        elif seen[:upto] != expect[:min(upto, len(seen))] or (punctual and len(seen) < len(expect) and not
                                                             (self.send_call is not None and disc)):
             self.flag('ping_instants_wrong', 'PING seen at %r, expected %r (PONGs sent at %r)' % (seen, expect, self.pong_at), trigger=trig)
         # (b) a punctual peer is never dropped before the deadline of the first PING it leaves unanswered
@@ -175,6 +190,8 @@ class Heartbeat(core.Scenario):
         first_unanswered = None
         if punctual and len(seen) > len(p['delays']):
             first_unanswered = seen[len(p['delays'])]
+        if p.get('stall'):
+            first_unanswered = iv          # emitted at open + interval whether or not the stalled client reads it
         if disc and punctual:
             limit = (first_unanswered + to) if first_unanswered is not None else None
             if limit is None or disc[0][3] < limit - EPS:
@@ -191,7 +208,7 @@ class Heartbeat(core.Scenario):
                     self.flag('dead_peer_dropped_late', 'disconnect at %.3f, bound %.3f' % (disc[0][3], bound), trigger=trig)
                 elif disc[0][2] not in TIMED and not (self.send_call and disc[0][2] == 'ping timeout'):
                     self.flag('wrong_reason', 'reason %r for a silent peer' % disc[0][2], trigger=trig)
-            elif self.mode == 'mute' and self.tr == 'polling' and self.send_call is None:
+            elif self.mode == 'mute' and self.tr == 'polling' and self.send_call is None and not p.get('stall'):
                 bound = last_pong + 2 * iv + to
                 if not disc or disc[0][3] > bound + EPS:
                     self.flag('dead_peer_not_dropped', 'monitoring off, peer keeps polling without PONG: disconnect %r, bound %.3f'
@@ -253,6 +270,11 @@ def param_list(ctx):
                             if seq == () and mode == 'mute':
                                 ps.append({'impl': impl, 'grid': list(g), 'transport': tr, 'delays': [], 'mode': 'vanish',
                                            'monitor': mon, 'send_at': None, 'client_msg': True})
+                            if tr == 'polling' and seq == () and mode == 'mute' and iv > 0.25:
+                                for stall in ('after_ping', 'before_ping'):
+                                    for s in (None, iv + to + 0.25):
+                                        ps.append({'impl': impl, 'grid': list(g), 'transport': 'polling', 'delays': [], 'mode': mode,
+                                                   'monitor': mon, 'send_at': s, 'stall': stall})
                             if tr == 'polling' and len(seq) <= 1 and mode == 'mute' and mon and iv > 0.25:
                                 ps.append({'impl': impl, 'grid': list(g), 'transport': 'polling', 'delays': list(seq), 'mode': mode,
                                            'monitor': mon, 'send_at': None, 'straddle': True})
